@@ -47,9 +47,32 @@ def rule_LV1(ctx, rep):
     exits = [s for s in iter_nodes(fn.node) if isinstance(s, (ast.Return, ast.Raise))]
     if len(exits) < 5:
         raise AnalysisError(f'LV1: only {len(exits)} exits found in typed_asyncoro (expected >= 5)')
+    def dominating(e):
+        """statements that precede e (or a statement enclosing e) in a block enclosing e, innermost first"""
+        out = []
+        x = e
+        while x is not None and x is not fn.node:
+            blk = _block_of(x, pm) if isinstance(x, ast.stmt) else None
+            if blk:
+                i = [j for j, y in enumerate(blk) if y is x]
+                if i:
+                    out.extend(reversed(blk[:i[0]]))
+            x = pm.get(id(x))
+            if isinstance(x, (ast.FunctionDef, ast.AsyncFunctionDef, ast.Lambda)):
+                break
+        return out
+
+    def terminates(stmts):
+        for s_ in stmts:
+            if isinstance(s_, (ast.Return, ast.Raise)):
+                return True
+            if isinstance(s_, ast.If) and s_.orelse and terminates(s_.body) and terminates(s_.orelse):
+                return True
+        return False
     for e in exits:
+        prior = dominating(e)
+        # only the statements of the same handler / loop iteration count for the release
         blk = _block_of(e, pm)
-        prior = blk[:[i for i, x in enumerate(blk) if x is e][0]] if blk else []
         if any(_level_dec(s) for s in prior):
             rep.ok('LV1', fn, e, 'exit preceded by the release of the pending level')
             continue
@@ -63,7 +86,7 @@ def rule_LV1(ctx, rep):
         if _level_dec(s):
             blk = _block_of(s, pm)
             i = [j for j, x in enumerate(blk) if x is s][0]
-            if not any(isinstance(x, (ast.Return, ast.Raise)) for x in blk[i + 1:]):
+            if not terminates(blk[i + 1:]):
                 rep.bad('LV1', fn, s, 'pending level released on a path that continues running the coroutine (double release later)')
     if len(cbs) == 1:
         t = cbs[0].func.value
